@@ -75,6 +75,35 @@ type SchedInfo struct {
 	AnyEnT   *Term
 	Foots    []*Footprint
 	Progress []*Term
+	// resting configurations of the final state that count as "left blocked" (non-daemon, not idle-exempt)
+	Final []FinalRec
+}
+
+type FinalRec struct {
+	Gor int
+	Pos string
+	G   *Term
+}
+
+// BlockedRec: a goroutine a stuck-state counterexample leaves blocked, with its identity for the native replay.
+type BlockedRec struct {
+	Gor    int    `json:"gor"`
+	Pos    string `json:"pos"`
+	Parent int    `json:"parent"`
+	Site   string `json:"site"`
+	Occ    int    `json:"occ"`
+}
+
+func (e *Engine) blockedUnder(si *SchedInfo, model map[string]uint64) []BlockedRec {
+	memo := map[int]uint64{}
+	var out []BlockedRec
+	for _, fr := range si.Final {
+		if Eval(fr.G, model, memo) != 0 && fr.Gor >= 0 && fr.Gor < len(e.gors) {
+			g := e.gors[fr.Gor]
+			out = append(out, BlockedRec{Gor: fr.Gor, Pos: fr.Pos, Parent: g.parent, Site: g.site, Occ: g.occ})
+		}
+	}
+	return out
 }
 
 func (e *Engine) resetAtRest(c *Config) {
@@ -446,6 +475,7 @@ func (e *Engine) runHarness(h *ssa.Function) *SchedInfo {
 			anyEn = Or(anyEn, And(c.g, en))
 			if !g.daemon && !e.isIdleExempt(c) {
 				alive = Or(alive, c.g)
+				si.Final = append(si.Final, FinalRec{Gor: g.idx, Pos: e.posOf(c), G: c.g})
 			}
 		}
 	}
